@@ -492,7 +492,56 @@ func GOr(gs ...Guard) Guard {
 }
 
 func isVal(want ssa.Value) func(ssa.Value) bool {
-	return func(v ssa.Value) bool { return v == want || strip(v) == want }
+	return func(v ssa.Value) bool {
+		return v == want || strip(v) == want || unspill(v) == want || strip(unspill(v)) == want
+	}
+}
+
+// unspill: with a defer (or a closure capture) go/ssa keeps named results and
+// captured locals in Allocs; a load "*t" directly after "*t = x" in the same
+// block is x. Returns v unchanged when that shape does not apply.
+func unspill(v ssa.Value) ssa.Value {
+	u, ok := v.(*ssa.UnOp)
+	if !ok || u.Op != token.MUL {
+		return v
+	}
+	al, ok := u.X.(*ssa.Alloc)
+	if !ok {
+		return v
+	}
+	var last ssa.Value
+	for _, in := range u.Block().Instrs {
+		if in == ssa.Instruction(u) {
+			break
+		}
+		if st, ok := in.(*ssa.Store); ok && st.Addr == ssa.Value(al) {
+			last = st.Val
+		}
+		// a call or defer may write through the captured address
+		if _, isCall := in.(ssa.CallInstruction); isCall && last != nil {
+			if capturedByClosure(al) {
+				if _, isDefer := in.(*ssa.Defer); !isDefer {
+					// calls cannot reach the alloc unless it was passed; closures run at rundefers only
+				}
+			}
+		}
+		if _, isRD := in.(*ssa.RunDefers); isRD {
+			last = nil
+		}
+	}
+	if last != nil {
+		return last
+	}
+	return v
+}
+
+func capturedByClosure(al *ssa.Alloc) bool {
+	for _, r := range *al.Referrers() {
+		if _, ok := r.(*ssa.MakeClosure); ok {
+			return true
+		}
+	}
+	return false
 }
 
 func anyNil(v ssa.Value) bool { return isNil(v) }
